@@ -351,6 +351,85 @@ func realMain() int {
 			}
 		}
 	}
+	// fields some statement of the loaded frp packages assigns outside the
+	// construction of their object (a store through a pointer that is not an
+	// allocation of the same function, or the field's address handed to a call):
+	// at a blocking receive another goroutine may have assigned them
+	var mutFields []mutField
+	{
+		seenMF := map[string]bool{}
+		note := func(fa *ssa.FieldAddr) {
+			// walk to the outermost field reached through a pointer value
+			for {
+				switch inner := fa.X.(type) {
+				case *ssa.FieldAddr:
+					fa = inner
+					continue
+				case *ssa.IndexAddr:
+					if in2, ok := inner.X.(*ssa.FieldAddr); ok {
+						fa = in2
+						continue
+					}
+				}
+				break
+			}
+			if _, isAlloc := fa.X.(*ssa.Alloc); isAlloc {
+				return
+			}
+			pt, ok := fa.X.Type().Underlying().(*types.Pointer)
+			if !ok {
+				return
+			}
+			if _, ok := structOf(pt.Elem()); !ok {
+				return
+			}
+			k := fieldArrayName(pt.Elem(), fa.Field)
+			if !strings.HasPrefix(typeKey(pt.Elem()), frpPrefix) || seenMF[k] {
+				return
+			}
+			seenMF[k] = true
+			mutFields = append(mutFields, mutField{pt.Elem(), fa.Field})
+		}
+		for _, fn := range allFns {
+			if !strings.HasPrefix(pkgPathOf(fn), frpPrefix) || strings.HasPrefix(fn.Name(), "verif") || strings.Contains(fn.String(), "/verif.") {
+				continue
+			}
+			if fn.Pos().IsValid() && strings.HasSuffix(prog.Fset.Position(fn.Pos()).Filename, "_verif.go") {
+				continue
+			}
+			for _, b := range fn.Blocks {
+				for _, ins := range b.Instrs {
+					switch c := ins.(type) {
+					case *ssa.Store:
+						switch a := c.Addr.(type) {
+						case *ssa.FieldAddr:
+							note(a)
+						case *ssa.IndexAddr:
+							if fa, ok := a.X.(*ssa.FieldAddr); ok {
+								note(fa)
+							}
+						}
+					case ssa.CallInstruction:
+						cc := c.Common()
+						if sf := cc.StaticCallee(); sf != nil && (strings.HasPrefix(sf.String(), "(*sync.") && !strings.HasPrefix(sf.String(), "(*sync/atomic")) {
+							continue
+						}
+						for _, a := range cc.Args {
+							if fa, ok := a.(*ssa.FieldAddr); ok {
+								if st, isSt := structOf(fa.X.Type().Underlying().(*types.Pointer).Elem()); isSt {
+									ft := st.Field(fa.Field).Type()
+									if strings.HasPrefix(ft.String(), "sync.") && !strings.HasPrefix(ft.String(), "sync/atomic") {
+										continue
+									}
+								}
+								note(fa)
+							}
+						}
+					}
+				}
+			}
+		}
+	}
 	// channels somebody sends on (same granularity as "closable"): a receive from
 	// a channel nobody sends on completes only because the channel was closed
 	sendable := map[string]bool{}
@@ -400,7 +479,7 @@ func realMain() int {
 	}
 	for _, u := range units {
 		ut0 := time.Now()
-		x := &Run{prog: prog, fset: prog.Fset, d: newDecls(), spec: db, arrSorts: map[string]Sort{}, arrRefEl: map[string]bool{}, arrSliceRefEl: map[string]string{}, libFieldArr: map[string]bool{}, sliceWriteCache: map[*ssa.Function]bool{}, maxPaths: *flagMaxPaths, timeout: timeout, maxDepth: 6, trusted: map[string]bool{}, modCache: map[*ssa.Function]*ModSet{}, inlined: map[string]bool{}, opaque: map[string]bool{}, closable: closable, sendable: sendable, mapZero: map[string]string{}, ctxInner: map[string]Val{}}
+		x := &Run{prog: prog, fset: prog.Fset, d: newDecls(), spec: db, arrSorts: map[string]Sort{}, arrRefEl: map[string]bool{}, arrSliceRefEl: map[string]string{}, libFieldArr: map[string]bool{}, sliceWriteCache: map[*ssa.Function]bool{}, maxPaths: *flagMaxPaths, timeout: timeout, maxDepth: 6, trusted: map[string]bool{}, modCache: map[*ssa.Function]*ModSet{}, inlined: map[string]bool{}, opaque: map[string]bool{}, closable: closable, sendable: sendable, mutFields: mutFields, mapZero: map[string]string{}, ctxInner: map[string]Val{}}
 		ur := &UnitResult{}
 		var finals []*State
 		if u.con != nil {
@@ -493,6 +572,9 @@ func realMain() int {
 					x.obligeStatic(newState(), "frame."+ur.Name+".declared", "frame", len(outside) == 0, u.con.Fn.Pos(), "writes outside the declared modifies set: "+strings.Join(outside, " "))
 				}
 			}
+		}
+		if os.Getenv("GOVC_DEADARMS") != "" {
+			deadArms(x, ur.Name, finals, x.obls)
 		}
 		vac := vacuousObligations(x, x.obls)
 		ur.Obligations = groupObligations(x.obls)
@@ -1001,4 +1083,83 @@ func allocOnlyMadeChans(a *ssa.Alloc) bool {
 		}
 	}
 	return n > 0
+}
+
+// deadArms (diagnostic, GOVC_DEADARMS=1): branch arms of the code that occur on
+// explored paths but on no path whose condition is satisfiable - a hint at a
+// modelling hole (a value the engine keeps constant although the code can
+// change it) rather than a statement about the code.
+func deadArms(x *Run, unit string, finals []*State, obls []*Obligation) {
+	pre := ""
+	for _, l := range strings.Split(x.d.preamble(), "\n") {
+		if !strings.Contains(l, "(forall ") {
+			pre += l + "\n"
+		}
+	}
+	type pathT struct {
+		trace []string
+		pc    []string
+	}
+	var paths []pathT
+	for _, f := range finals {
+		paths = append(paths, pathT{f.trace, f.pc})
+	}
+	for _, ob := range obls {
+		paths = append(paths, pathT{ob.Trace, ob.pcRef})
+	}
+	live := map[string]bool{}
+	seen := map[string]bool{}
+	memo := map[[20]byte]bool{}
+	checks := 0
+	for _, p := range paths {
+		allLive := true
+		for _, l := range p.trace {
+			seen[l] = true
+			if !live[l] {
+				allLive = false
+			}
+		}
+		if allLive || checks > 600 {
+			continue
+		}
+		var b strings.Builder
+		b.WriteString(pre)
+		dead := false
+		for _, c := range p.pc {
+			pl := pcPlain(c)
+			if pl == "false" {
+				dead = true
+				break
+			}
+			if !strings.Contains(pl, "(forall ") {
+				b.WriteString("(assert " + pl + ")\n")
+			}
+		}
+		if dead {
+			continue
+		}
+		h := sha1.Sum([]byte(b.String()))
+		ok, known := memo[h]
+		if !known {
+			checks++
+			r := solve(b.String(), 3, false, []string{"z3-new"})
+			ok = r.Status != "unsat"
+			memo[h] = ok
+		}
+		if ok {
+			for _, l := range p.trace {
+				live[l] = true
+			}
+		}
+	}
+	var deadL []string
+	for l := range seen {
+		if !live[l] && !strings.Contains(l, "zz_contracts_verif") && strings.Contains(l, ".go:") {
+			deadL = append(deadL, l)
+		}
+	}
+	sort.Strings(deadL)
+	if len(deadL) > 0 {
+		fmt.Fprintf(os.Stderr, "DEADARMS %s: %s\n", unit, strings.Join(deadL, " "))
+	}
 }
